@@ -108,9 +108,11 @@ m = {
  },
  "engines": [
    {"name": "mux", "path": "/verif/lib/mux.py", "serves_properties": ["C10", "C11"],
-    "kind_free_text": "TLC model checking (tla/Mux, tla/MuxTable), fault placements (tla/Gen_Mux), connection-table operation sequences (tla/Gen_MuxTable), recording driver with child isolation (harness/muxdrv, hooks in mux.go), TLC trace validation (tla/Trace_Mux, tla/Trace_MuxTable)"},
+    "kind_free_text": "TLC model checking (tla/Mux, tla/MuxTable), Apalache inductive invariant of the frame-splitting loop (tla/MuxSplitInd), fault placements (tla/Gen_Mux), connection-table operation sequences (tla/Gen_MuxTable), recording driver with child isolation (harness/muxdrv, hooks in mux.go), TLC trace validation (tla/Trace_Mux, tla/Trace_MuxTable)"},
    {"name": "builder", "path": "/verif/lib/builder.py", "serves_properties": [],
     "kind_free_text": "extension X01 (not a listed property; ./check X01): the adjustment/update builder API as a state machine (tla/Builder), call sequences replayed on real values (harness/builddrv), TLC trace validation (tla/Trace_Builder); evidence in evidence/ext/"},
+   {"name": "stubsetup", "path": "/verif/lib/stubsetup.py", "serves_properties": [],
+    "kind_free_text": "extension X03 (not a listed property; ./check X03): identity and connection source of a stub (tla/StubSetup), child processes with the scenario's environment / options / argv[0] (harness/setupdrv), TLC trace validation (tla/Trace_StubSetup)"},
    {"name": "adaptlife", "path": "/verif/lib/adaptlife.py", "serves_properties": [],
     "kind_free_text": "extension X02 (not a listed property; ./check X02): Adaptation Start/Stop/restart against registrations in flight (tla/AdaptLife, tla/Gen_AdaptLife), schedules stepped through a real Adaptation (harness/alifedrv), TLC trace validation (tla/Trace_AdaptLife); findings under property=X02 in known_findings.txt"},
    {"name": "convert", "path": "/verif/lib/convert.py", "serves_properties": ["C14"],
@@ -124,7 +126,7 @@ m = {
    {"name": "stublife", "path": "/verif/lib/stublife.py", "serves_properties": ["C16"],
     "kind_free_text": "TLC (tla/StubLife, tla/Gen_Stub) + stub driver against a scripted runtime end (harness/stubdrv, harness/rawpeer) + TLC trace validation (tla/Trace_Stub)"},
    {"name": "sync", "path": "/verif/lib/sync.py", "serves_properties": ["C09"],
-    "kind_free_text": "TLC (tla/SyncChunk) + real registrations in child processes (harness/syncdrv) + TLC trace validation (tla/Trace_Sync)"},
+    "kind_free_text": "TLC (tla/SyncChunk) + Apalache inductive invariant over unbounded counts (tla/SyncChunkInd) + real registrations in child processes (harness/syncdrv) + TLC trace validation (tla/Trace_Sync)"},
    {"name": "oci", "path": "/verif/lib/oci.py", "serves_properties": ["C13"],
     "kind_free_text": "TLC (tla/Gen_Oci) + replay on pkg/runtime-tools/generate (harness/ocidrv) + TLC trace validation (tla/Trace_Oci)"},
    {"name": "relay", "path": "/verif/lib/relay.py", "serves_properties": ["C06", "C07", "C08", "C17", "C19"],
